@@ -734,6 +734,7 @@ func (ex *Exec) builtin(fr *Frame, st *State, bi *ssa.Builtin, cc *ssa.CallCommo
 			}
 		case *types.Map:
 			m := ex.term(a, SInt, "len map")
+			ex.mapIs(m, t)
 			card := ex.heapGet(st, MapCardKey, SArray(SInt, SInt))
 			n := ts.Ite(ts.Eq(m, ts.Int(0)), ts.Int(0), ts.Select(card, m))
 			ex.assume(st.PC, ts.Ge(n, ts.Int(0)))
